@@ -3,6 +3,9 @@ Theorems: coq/Props/C09.v.  Stream: every generated program is assembled by the 
 1,2,3,4,5,10,11,30; a success at budget b must be reproduced identically at every larger budget, and the reported
 pass count must not exceed the budget.  Implementation = extracted model at every budget."""
 import vlib, asm_gen, asm_streams
+import sys, os
+sys.path.insert(0, os.path.dirname(os.path.abspath(__file__)))
+import ext_resolver2
 
 BUDGETS = [1, 2, 3, 4, 5, 10, 11, 30]
 RULE = ("G-isa x G-prog (static and cascading sizes, assertions) x budgets 1,2,3,4,5,10,11,30 x switch combinations: monotonicity of the "
@@ -91,6 +94,7 @@ def run(chk):
     chk.count("programs_x_budgets", len(icases), **dist)
     chk.cov["traces_validated_against_impl"] = len(icases)
     chk.cov["disagreements_checked"] = ndis
+    ext_resolver2.run_streams(chk, quick, which=("budgets",))
 
 
 def replay(chk, rep):
